@@ -165,3 +165,62 @@ def run_engine(chk, pid, per_font, fonts=None):
         n = int(tok[1][2:])
         classes.add((mt['font'], min(n, 12), mt.get('dir', 0) & 1, wf == 'ok'))
     return len(cases), classes, dist, ndis, cases
+
+
+def run_fontkit(chk, pid, nprog):
+    """compiled GDL-lite programs (tools/props/fontkit.py) on the real engine: structural oracle + trace replay.  A rule that deletes a slot
+    without re-associating its characters is something the shipped fonts never do; here it is common."""
+    import shutil
+    from props import fontkit as K, c06, cmapgen
+    rng = chk.rng
+    wrapper = build(chk)
+    mexe = vlib.build_model_driver('Stream')
+    base = open(os.path.join(vlib.REPO, 'tests/fonts', c06.BASE), 'rb').read()
+    cm = cmapgen.parse_font_cmap(os.path.join(vlib.REPO, 'tests/fonts', c06.BASE))
+    inv = {}
+    for c, g in cm.items():
+        if 0x21 <= c <= 0x7E and g:
+            inv.setdefault(g, c)
+    gl = sorted(inv)
+    tmp = os.path.join(vlib.BUILD, 'fuzzfonts', 'fk-%s-%s-%d' % (pid, chk.tier, chk.seed))
+    shutil.rmtree(tmp, ignore_errors=True); os.makedirs(tmp)
+    cases, progs = [], []
+    for k in range(nprog):
+        prog = c06.gen_program(rng, gl)
+        p = os.path.join(tmp, 'p%d.ttf' % k)
+        open(p, 'wb').write(K.build_font(base, prog))
+        text = K.prog_to_text(prog)
+        alpha = sorted(set(g for ps in prog for g in ps['alpha']))
+        for t in range(5):
+            gids = [rng.choice(alpha) if rng.random() < 0.85 else rng.choice(gl) for _ in range(rng.choice((1, 2, 3, 5, 8, 12)))]
+            cases.append(S.case_line('f%d.%d' % (k, t), p, [inv[g] for g in gids], 32, dir_=rng.choice((0, 0, 1, 2)), ops=('dump', 'trace')))
+            progs.append((p, text))
+    _, il, _ = vlib.run_pair(None, wrapper, cases, timeout=2400)
+    ml, _, _ = vlib.run_pair(mexe, None, [l or 'x' for l in il], timeout=2400)
+    mine = CATS[pid]
+    classes, ndis = set(), 0
+    for c, (fp, text), i, m in zip(cases, progs, il, ml):
+        if i is None:
+            chk.tie_break('harness', 'no result line', c[:300]); continue
+        tok = i.split()
+        if 'ABORT' in tok[1:3]:
+            if pid == 'C03':
+                chk.violation('fontkit-abort:%s' % text[:100], 'shaping with a compiled rule program aborted: %s' % i[:300], dict(case=c, got=i[:600], program=text, font_gz_b64=c06.blob(fp)))
+            continue
+        if tok[1] in ('NOFACE', 'NULLSEG'):
+            continue
+        wf = tok[4][3:]
+        if wf != 'ok' and any(wf.startswith(x) for x in mine):
+            key = '%s:fontkit:%s:%s' % (pid.lower(), wf.split('@')[0], text[:120])
+            # the recorded defect F10: a slot is deleted and no rule re-associates its characters (no ASSOC): the char info keeps -1
+            vals = wf.split(':')[-1].split(',') if ':' in wf else []
+            if pid == 'C05' and wf.startswith('cinfo-slot-range') and '-1' in vals and 'D' in text and all(v == '-1' or v.lstrip('-').isdigit() and int(v) >= 0 for v in vals):
+                key = 'c05:char-of-deleted-slot-left-unassociated'
+            chk.violation(key, 'after the passes of a compiled rule program the segment violates the property: %s' % wf, dict(case=c, got=i[:1500], program=text, font_gz_b64=c06.blob(fp)))
+        mres = (m or '').split()
+        if len(mres) < 3 or mres[2] not in ('ok', 'none'):
+            ndis += 1
+            chk.tie_break('correspondence:stream', 'trace replay through Model/StreamModel.v diverges on a compiled rule program: %s' % (m or '')[:500], c[:300])
+        classes.add(('fontkit', text.count('/'), 'D' in text, 'I' in text, wf.split('@')[0]))
+    shutil.rmtree(tmp, ignore_errors=True)
+    return len(cases), classes, ndis
